@@ -30,7 +30,7 @@ var (
 )
 
 func c13Recs(n int) []HRec {
-	names := []string{"r1", "r2", "r3"}
+	names := []string{"r1", "r2", "r3", "r4", "r5"}
 	r := make([]HRec, n)
 	for i := range r {
 		r[i] = HRec{Name: names[i]}
@@ -40,8 +40,9 @@ func c13Recs(n int) []HRec {
 
 func c13Cases() []c13Case {
 	var cs []c13Case
-	names := []string{"r1", "r2", "r3"}
-	for n := 0; n <= 3; n++ {
+	names := []string{"r1", "r2", "r3", "r4", "r5"}
+	// slices of up to 3 records in the quick tier, 5 in the thorough tier
+	for n := 0; n <= 3+2*verifrt.Tier(); n++ {
 		n := n
 		cs = append(cs, c13Case{name: "create-values-" + string([]byte{byte('0' + n)}), records: names[:n], phases: createPhases, valAt: 1,
 			run: func(db *gorm.DB) *gorm.DB { r := c13Recs(n); return db.Create(&r) }})
@@ -149,7 +150,7 @@ func H_C13_Hooks(shape int) {
 	s := NewStore()
 	db := openReal(stubDialector{}, s, nil)
 	hooks = &hookCtl{store: s}
-	hooks.failAt = verifrt.Intn("hook_fail_at", 0, 13)
+	hooks.failAt = verifrt.Intn("hook_fail_at", 0, 13+8*verifrt.Tier())
 	setVal := verifrt.Int("set_val")
 	if c.valAt >= 0 {
 		switch verifrt.Concretize(verifrt.Intn("set_mode", 0, 2), 0, 2) {
